@@ -44,12 +44,21 @@ def quantified_nullable_groups(tier):
     return out
 
 
+def loops_over_nullable_bodies(tier):
+    """A repetition around a body that can match the empty text (its follow lists name a position more than once), followed by
+    a tail that needs positions beyond the loop: the subset construction must tell apart position sets that include one another."""
+    bodies = ["a*b?", "a?b*", "a*b*", "a*|b", "b*(ac(a)?)*", "(b)*|ba", "a?b?c?", "a|b?", "a*b?c*"]
+    loops = ["*", "+", "{2}", "{1,2}"] if tier != "quick" else ["*", "+"]
+    tails = ["bb", "ab", "abb", "b", "ca", ""] if tier != "quick" else ["bb", "ab", "b", "ca"]
+    return ["(%s)%s%s" % (b, l, t) for b in bodies for l in loops for t in tails]
+
+
 PREFIX_ALTERNATIONS = ["a|ab", "ab|a", "=|==", "[a-z]+|if", "if|[a-z]+", "a|ab|abc", "abc|ab|a", "(a|ab)c", "(a|ab)*", "x(a|ab|b)y", "a?|ab", "a|a*b",
                        "(a|ab)(c|bcd)", "0|0x[0-9]+", "[0-9]+|[0-9]+\\.[0-9]+"]
 
 
 def patterns_for(tier, rng):
-    pats = R.corpus(PROP) + NULLABLE_SHAPES + PREFIX_ALTERNATIONS + followpos_shapes(tier) + quantified_nullable_groups(tier) + list(R.EVERY_CONSTRUCT)
+    pats = R.corpus(PROP) + NULLABLE_SHAPES + PREFIX_ALTERNATIONS + followpos_shapes(tier) + quantified_nullable_groups(tier) + loops_over_nullable_bodies(tier) + list(R.EVERY_CONSTRUCT)
     pats += R.small_exhaustive() if tier != "quick" else R.small_exhaustive()[::3]
     n = 120 if tier == "quick" else 2500
     for _ in range(n):
